@@ -11,6 +11,7 @@ import XV.Lemmas.FormatterInst
 import XV.Lemmas.Cdata
 import XV.Lemmas.Serializer
 import XV.Lemmas.NsFixup
+import XV.Lemmas.TreeInfoset
 namespace XV.Props.C12
 open XV.Model.Formatter XV.Model.Cdata XV.Gen.Escapes XV.Gen.ByteTables
 open XV.Spec.Escaping
@@ -405,6 +406,80 @@ example : Consistent [([112], [49]), ([113], [49]), ([112], [49])] := by
   rcases hx with rfl | rfl | rfl <;> rcases hy with rfl | rfl | rfl <;> simp_all
 
 end Ns
+
+/-! ### whole trees: composition with C02's parser (`parse_render`) and C03's `infoset` -/
+section WholeTree
+open XV.Model.TreeSyntax XV.Model.Serializer XV.Spec.Xml XV.Spec.Infoset XV.Spec.DomView
+open XV.Lemmas.TreeUnits XV.Lemmas.TreeOut XV.Lemmas.TreeWF XV.Lemmas.TreeInfoset
+
+/-- **reparse_equal_tree**: for every DOM tree of the fragment — a document element with arbitrarily nested elements,
+attributes, text, CDATA sections, comments and PIs (no doctype, no entity references, no document-level comments /
+PIs), XML 1.0 and 1.1 — that satisfies `okNode`, serialised in a Unicode-transparent encoding (UTF-8, UTF-16:
+`Transparent`) by the serializer as it is now (`Fixed`, and `inEscapeList` repaired: `heol`):
+
+* the serializer model reports no error and writes the UTF-16 units `us`;
+* `us` is the character-for-character rendering of the concrete syntax tree `toDoc …` (which characters became
+  which reference, where CDATA sections were cut, how tags and the XML declaration are spelled);
+* that tree is a well-formed document (C02's `WF`), and C02's reference parser reads exactly it back from the output;
+* what a processor reports for it (C03's `infoset`), seen as a DOM — element starts with their attributes and
+  normalised values in order, ends, comments, PIs, character data coalesced across Text / CDATA boundaries
+  (XV.Spec.DomView) — is the content of the original tree.
+
+`okNode` = what the DOM guarantees (names are Names, attribute names distinct, PI target not `xml`) + what the
+serializer checks itself (legal characters; no `--` in / `-` at the end of a comment; no `?>` in PI data) + the
+three things XML cannot express and the real serializer writes without a report (recorded findings): CR (1.1: NEL,
+LSEP) inside a CDATA section / comment / PI, and white space at the start of PI data.  `okDocCfg`: the encoding name
+is an EncName, and an XML 1.1 document is written with its XML declaration. -/
+theorem reparse_equal_tree (e : Env) (ht : Transparent e.cd) (hf : Fixed e)
+    (heol : e.cfg.xml11 = true → e.cfg.eolFix = true)
+    (enc n : Str) (as : List (Str × Str)) (kids : List CNode) (henc : e.encName = U enc)
+    (hc : okDocCfg e.cfg e.feat.xmlDecl enc = true) (hok : okNode e.cfg.xml11 (.elem n as kids) = true) :
+    ∃ us, document e false [unitsNode (.elem n as kids)] = .ok us ∧
+      charsOf us = render (toDoc e.cfg e.feat.xmlDecl enc n as kids) ∧
+      WF (toDoc e.cfg e.feat.xmlDecl enc n as kids) ∧
+      parse (charsOf us) = .ok (toDoc e.cfg e.feat.xmlDecl enc n as kids) ∧
+      domView (infoset (toDoc e.cfg e.feat.xmlDecl enc n as kids)) = treeView (.elem n as kids) := by
+  have hout := document_out e ht hf enc n as kids henc hok
+  have hwf := wf_toDoc e.cfg e.feat.xmlDecl enc n as kids hc hok
+  refine ⟨_, hout, charsOf_U _, hwf, ?_, domView_toDoc e.cfg e.feat.xmlDecl enc n as kids hc heol hok⟩
+  rw [charsOf_U]
+  exact XV.Props.C02.parse_render _ hwf (by simp [XV.Lemmas.Xml.entOnlyDoc, toDoc])
+
+/-- the same, read as the round trip: parse what was written, look at it as a DOM, get the tree's content -/
+theorem reparse_equal_tree_roundtrip (e : Env) (ht : Transparent e.cd) (hf : Fixed e)
+    (heol : e.cfg.xml11 = true → e.cfg.eolFix = true)
+    (enc n : Str) (as : List (Str × Str)) (kids : List CNode) (henc : e.encName = U enc)
+    (hc : okDocCfg e.cfg e.feat.xmlDecl enc = true) (hok : okNode e.cfg.xml11 (.elem n as kids) = true) :
+    ∃ us c, document e false [unitsNode (.elem n as kids)] = .ok us ∧ parse (charsOf us) = .ok c ∧
+      domView (infoset c) = treeView (.elem n as kids) := by
+  obtain ⟨us, h1, _, _, h4, h5⟩ := reparse_equal_tree e ht hf heol enc n as kids henc hc hok
+  exact ⟨us, _, h1, h4, h5⟩
+
+/-- the line-end side condition is sharp: a comment holding a CR is written as it stands and read back with LF -/
+theorem reparse_cr_in_comment_lost :
+    domView (infoset (toDoc ⟨false, true⟩ false [] ['r'] [] [.comment ['a', '\r']])) ≠ treeView (.elem ['r'] [] [.comment ['a', '\r']]) := by
+  decide
+
+-- non-vacuity: a nested tree with `<`, `&`, `]]>` (in text and in a CDATA section), a quote in an attribute value,
+-- CR / TAB / LF in an attribute value and in text, non-ASCII and supplementary characters; XML 1.0 and 1.1
+def exTree : CNode :=
+  .elem ['r'] [(['a'], ['x', '"', '<', '\t', '\n', '\r', '&']), (['b'], ['é', Char.ofNat 0x1F600])]
+    [.text ['a', '<', 'b', '&', 'c', ']', ']', '>', 'd', '\r', '\n', '\t', 'e'],
+     .elem ['k'] [] [.elem ['m', ':', 'n'] [(['q'], [' ', Char.ofNat 0x85])] [.cdata ['p', ']', ']', '>', 'q'], .text ['x'], .cdata []]],
+     .comment [' ', 'c', '-', ' '], .pi ['t'] ['d', ' ', '?']]
+
+def exEnv (v11 : Bool) : Env :=
+  { cd := utf8Coder, cfg := ⟨v11, true⟩, encName := U ['U', 'T', 'F', '-', '8'], feat := { cdataFix := true, wfFix := true } }
+
+example : okNode false exTree = true ∧ okNode true exTree = true ∧ okDocCfg ⟨true, true⟩ true ['U', 'T', 'F', '-', '8'] = true := by decide
+example (v11 : Bool) : Transparent (exEnv v11).cd ∧ Fixed (exEnv v11) := ⟨transparent_utf8, ⟨rfl, rfl, rfl⟩⟩
+example : treeView exTree =
+    [.start ['r'] [(['a'], ['x', '"', '<', '\t', '\n', '\r', '&']), (['b'], ['é', Char.ofNat 0x1F600])],
+     .chars ['a', '<', 'b', '&', 'c', ']', ']', '>', 'd', '\r', '\n', '\t', 'e'], .start ['k'] [],
+     .start ['m', ':', 'n'] [(['q'], [' ', Char.ofNat 0x85])], .chars ['p', ']', ']', '>', 'q', 'x'], .end_ ['m', ':', 'n'], .end_ ['k'],
+     .comment [' ', 'c', '-', ' '], .pi ['t'] ['d', ' ', '?'], .end_ ['r']] := by decide
+
+end WholeTree
 
 /-! ### non-vacuity -/
 
